@@ -108,11 +108,11 @@ func (k *c03client) judge(c *Check, scenario string) {
 				return
 			case seq < lastSeq:
 				c.Violate(Violation{Class: "reply-of-another-request", Shape: scenario,
-					Detail:  fmt.Sprintf("connection %d: data of its request %d delivered after data of request %d", k.id, seq, lastSeq), Witness: wit})
+					Detail: fmt.Sprintf("connection %d: data of its request %d delivered after data of request %d", k.id, seq, lastSeq), Witness: wit})
 				return
 			case aligned && seq != i:
 				c.Violate(Violation{Class: "reply-of-another-request", Shape: scenario,
-					Detail:  fmt.Sprintf("connection %d: position %d holds data produced for its request %d", k.id, i, seq), Witness: wit})
+					Detail: fmt.Sprintf("connection %d: position %d holds data produced for its request %d", k.id, i, seq), Witness: wit})
 				return
 			}
 			lastSeq = seq
